@@ -506,16 +506,18 @@ type world struct {
 	t      *testing.T
 	NI, NR *node
 	ctx    *ctxServer
+	gate   *gateLoader
 }
 
 func newWorld(t *testing.T) *world {
 	w := &world{t: t}
 	w.ctx = newCtxServer()
 	t.Cleanup(w.ctx.srv.Close)
-	rl, err := receiverLD(w.ctx)
+	rl, gate, err := receiverLD(w.ctx)
 	if err != nil {
 		t.Fatal(err)
 	}
+	w.gate = gate
 	w.NI = newNode(t, "NI", ldManager{penLoader{prefix: w.ctx.srv.URL, next: jsonld.NewTestJSONLDManager(t).DocumentLoader()}})
 	w.NR = newNode(t, "NR", rl)
 	return w
